@@ -1,29 +1,26 @@
-// nokv-corr runs one correspondence family against the NoKV implementation
-// built from /repo's working tree and writes cases.jsonl + meta.json.
-package main
+package corr
 
 import (
 	"flag"
 	"fmt"
 	"os"
 	"strconv"
-
-	"verifharness/internal/corr"
 )
 
-type family func(c *corr.Ctx) error
+// Family runs one correspondence family: it executes generated inputs against
+// the implementation and emits cases through the Ctx.
+type Family func(c *Ctx) error
 
-var families = map[string]family{}
-
-func register(name string, f family) { families[name] = f }
-
-func main() {
+// Main is the entry point shared by every harness binary under cmd/.
+//
+//	<bin> <family> --prop Cxx --seed N --tier quick|thorough|search --out DIR [--replay FILE]
+func Main(families map[string]Family) {
 	if len(os.Args) < 2 {
-		fmt.Fprintln(os.Stderr, "usage: nokv-corr <family> --prop Cxx --seed N --tier quick|thorough|search --out DIR [--replay FILE]")
+		fmt.Fprintln(os.Stderr, "usage: <bin> <family> --prop Cxx --seed N --tier quick|thorough|search --out DIR [--replay FILE]")
 		os.Exit(2)
 	}
 	fam := os.Args[1]
-	fs := flag.NewFlagSet("nokv-corr", flag.ExitOnError)
+	fs := flag.NewFlagSet("corr", flag.ExitOnError)
 	prop := fs.String("prop", "", "property id")
 	seedS := fs.String("seed", "1", "seed")
 	tier := fs.String("tier", "quick", "tier")
@@ -39,7 +36,7 @@ func main() {
 		fmt.Fprintf(os.Stderr, "unknown family %q\n", fam)
 		os.Exit(2)
 	}
-	ctx, err := corr.NewCtx(*prop, *tier, seed, *out, *replay)
+	ctx, err := NewCtx(*prop, *tier, seed, *out, *replay)
 	if err != nil {
 		fmt.Fprintln(os.Stderr, err)
 		os.Exit(2)
